@@ -8,3 +8,6 @@ import GolibsVerif.Theorems.C03
 import GolibsVerif.Go.Netip
 import GolibsVerif.Model.NetIP
 import GolibsVerif.Theorems.C02
+import GolibsVerif.Model.NetReversed
+import GolibsVerif.Theorems.C04
+import GolibsVerif.Theorems.C05
